@@ -247,8 +247,10 @@ fn limits_case<K: El, V: El>(cfg: &Cfg, state: u64, size: usize, rng: &mut Rng, 
             break;
         }
     }
-    if split {
-        s.mon.stats.alloc_fail_injected += 0;
+    // iterators whose claimed lower size bound is huge (std::iter::repeat claims usize::MAX)
+    for lo in [u64::MAX, u64::MAX - 1, u64::MAX / 2 + 1, i64::MAX as u64, 1u64 << 62] {
+        s.go(Op::n(Code::ExtendHinted, lo).with_list(vec![3_000_001, 1, 3_000_002, 2]));
+        let _ = split;
     }
     // injected allocation failure in this state, then contract checks with ordinary arguments
     let free = s.mon.map.capacity() as u64 - len;
